@@ -13,6 +13,7 @@ all four model backends give identical outputs on every operation list (`backend
 -/
 import Verif.Lemmas.KV
 import Verif.Lemmas.KVCache
+import Verif.Lemmas.KVFault
 
 namespace Verif.C17
 open Verif.KV Std
@@ -246,5 +247,82 @@ example : runOuts (CacheDB.stepN memBackend) (CacheDB.init MemDB.init) demoOps =
 /-- the stacked cache on the same history -/
 example : runOuts (CacheDB.stepN (cacheBackend memBackend)) (CacheDB.init (CacheDB.init MemDB.init))
     demoOps = demoOuts := by decide +kernel
+
+/-! ### the physical database fails in the middle (`Model/KVFault.lean`)
+
+Histories may contain, anywhere, a `CreateBucket` the physical database refuses and a `Flush`
+whose commit fails with the batch left pending. The specification (`Spec.stepF`) demands of every
+backend: the failing call returns an error and changes NOTHING — working and durable image stay
+as they are, every later operation answers as if the failing call had not been made. -/
+
+def runOutsF {σ} (step : σ → FOp → σ × Out) : σ → List FOp → List Out
+  | _, [] => []
+  | s, op :: ops => (step s op).2 :: runOutsF step (step s op).1 ops
+
+theorem refinesF_trace_eq {σ} {B : BackendF σ} {Ri : σ → Spec → Prop} (hB : RefinesF B Ri)
+    (ops : List FOp) : ∀ x s, Ri x s → runOutsF B.step x ops = runOutsF Spec.stepF s ops := by
+  induction ops with
+  | nil => intros; rfl
+  | cons op ops ih =>
+    intro x s h
+    have h' := hB.step x s h op
+    simp only [runOutsF, h'.1, ih _ _ h'.2]
+
+/-- **all backends agree under failures of the physical database**: MemDB behind a failing
+database, CacheDB over it, CacheDB over a failing abstract map, and a cache stacked on a cache
+return, on EVERY history with failing calls anywhere, exactly what the specification returns -/
+theorem backends_agree_under_faults (ops : List FOp) :
+    runOutsF MemDB.stepF MemDB.init ops = runOutsF Spec.stepF Spec.init ops ∧
+    runOutsF (CacheDB.stepNF memBackendF) (CacheDB.init MemDB.init) ops = runOutsF Spec.stepF Spec.init ops ∧
+    runOutsF (CacheDB.stepNF specBackendF) (CacheDB.init Spec.init) ops = runOutsF Spec.stepF Spec.init ops ∧
+    runOutsF (CacheDB.stepNF (cacheBackendF memBackendF)) (CacheDB.init (CacheDB.init MemDB.init)) ops
+      = runOutsF Spec.stepF Spec.init ops :=
+  ⟨refinesF_trace_eq refinesF_mem ops _ _ R_init,
+   refinesF_trace_eq (refinesF_cache refinesF_mem) ops _ _ (RcN_init R MemDB.init R_init),
+   refinesF_trace_eq (refinesF_cache refinesF_spec) ops _ _ (RcN_init Eq Spec.init rfl),
+   refinesF_trace_eq (refinesF_cache (refinesF_cache refinesF_mem)) ops _ _
+     (RcN_init (RcN R) _ (RcN_init R MemDB.init R_init))⟩
+
+/-- without failing calls the extended machines ARE the machines of `backends_agree` -/
+theorem stepF_op_eq (o : Op) (d : MemDB) (s : Spec) (cn : CacheDB MemDB × List Nat) :
+    MemDB.stepF d (.op o) = MemDB.step d o ∧ Spec.stepF s (.op o) = Spec.step s o ∧
+    CacheDB.stepNF memBackendF cn (.op o) = CacheDB.stepN memBackend cn o := ⟨rfl, rfl, rfl⟩
+
+/-- the seeded "ask the overlay first" variant of `CacheDB.CreateBucket`: a refused creation
+leaves the bucket registered in the overlay, so the retry fails although the specification (and
+the raw backend) accepts it -/
+def createOverlayFirst {σ} (B : BackendF σ) (c : CacheDB σ) (b : Nat) (fails : Bool) : CacheDB σ × Out :=
+  match c.mem.create b with
+  | none => (c, .err)
+  | some m =>
+    let c' : CacheDB σ := { c with mem := m }
+    match B.step c'.inner (if fails then .failCreate b else .op (.create b)) with
+    | (s', .ok) => ({ c' with inner := s' }, .ok)
+    | (s', _) => ({ c' with inner := s' }, .err)
+
+example :
+    -- the code: refused, then accepted
+    runOutsF (CacheDB.stepNF memBackendF) (CacheDB.init MemDB.init) [.failCreate 0, .op (.create 0)] = [.err, .ok] ∧
+    runOutsF Spec.stepF Spec.init [.failCreate 0, .op (.create 0)] = [.err, .ok] ∧
+    -- the variant: refused, then refused again
+    (createOverlayFirst memBackendF (createOverlayFirst memBackendF (CacheDB.init MemDB.init).1 0 true).1 0 false).2 = .err := by
+  decide +kernel
+
+/-- non-vacuity: a history with both kinds of failure, evaluated on the CacheDB(MemDB) model and
+on the specification: the failed flush loses nothing and commits nothing (the `cancel` after it
+returns to the last successful flush), the refused creation can be retried -/
+def demoOpsF : List FOp :=
+  [.failCreate 0, .op (.create 0), .op (.put 0 1 10), .op .flush, .op (.put 0 2 20), .op (.del 0 1),
+   .failFlush, .op (.iter 0), .op .cancel, .op (.iter 0), .op (.put 0 3 30), .failFlush, .op .flush,
+   .op .cancel, .op (.iter 0)]
+
+def demoOutsF : List Out :=
+  [.err, .ok, .ok, .ok, .ok, .ok, .err, .kvs (ExtTreeMap.ofList [(2, 20)]), .ok,
+   .kvs (ExtTreeMap.ofList [(1, 10)]), .ok, .err, .ok, .ok, .kvs (ExtTreeMap.ofList [(1, 10), (3, 30)])]
+
+example : runOutsF (CacheDB.stepNF memBackendF) (CacheDB.init MemDB.init) demoOpsF = demoOutsF := by
+  decide +kernel
+
+example : runOutsF Spec.stepF Spec.init demoOpsF = demoOutsF := by decide +kernel
 
 end Verif.C17
